@@ -209,6 +209,12 @@ func run(a hx.RunArgs) error {
 		for _, q := range c.Queries {
 			rn.Case(q.Q, q.Tys, q.Ordered, &sqlgen.Printer{Db: c.Db})
 		}
+		for _, w := range c.Witnesses {
+			p := w.Opt
+			p.Db = c.Db
+			rn.Case(w.Q, w.Tys, w.Ordered, &p)
+			out.Stat("known-finding-witness")
+		}
 	}
 	g := sqlgen.NewGen(r, sqlgen.Default())
 	for i := 0; i < nDb; i++ {
